@@ -178,9 +178,38 @@ def perturbations(ctx, n):
     return done, coincidences
 
 
+def across_processes(ctx, n):
+    """The cookie is a function of (key, 4-tuple) alone: a second responder process, started now, has to produce the
+    same sequence numbers - for random keys and for the special ones ([0, 0] is what the shipped binary runs with)."""
+    from ..driver import Driver
+    rng = ctx.rng
+    d2 = Driver(ctx.bin)
+    try:
+        for i in range(n):
+            key = rng.choice([(0, 0), (0, 0), (0, 1), (1, 0), (0xFFFFFFFFFFFFFFFF, 0xFFFFFFFFFFFFFFFF), gen.rnd_key(rng), gen.rnd_key(rng)])
+            cfg = gen.rnd_config(rng, deny=False, selfips=False, logger="n", level=0).with_(key=key)
+            ctx.case(cfg, record=False)
+            d2.cfg(cfg)
+            for _ in range(8):
+                e = gen.endp(rng, cfg, rng.random() < 0.5)
+                f = e.tcp(gen.rnd_port(rng), gen.rnd_port(rng), rng.getrandbits(32), 0, SYN)
+                r1, r2 = ctx.send(f), d2.frame(f)
+                ctx.stats["cross_process_pairs"] += 1
+                ctx.nontrivial("xproc", key, f[26:])
+                a1 = pkt.parse(r1.reply) if r1.kind == "R" else {}
+                a2 = pkt.parse(r2.reply) if r2.kind == "R" else {}
+                if a1.get("seq") != a2.get("seq") or a1.get("flags") != a2.get("flags"):
+                    ctx.violation("cookie_differs_between_processes", "the same SYN under the same key %x:%x is answered with sequence number %s by one responder process and %s by another" % (
+                        key[0], key[1], a1.get("seq"), a2.get("seq")), observed=[a1.get("seq"), a2.get("seq")], expected="equal", frames=[f])
+                    return
+    finally:
+        d2.close()
+
+
 def shard(ctx, budget_s, npert):
     rng = ctx.rng
     deadline = time.time() + budget_s
+    across_processes(ctx, 6 if ctx.tier == "quick" else 60)
     n = 0
     while time.time() < deadline or n == 0:
         cfg = gen.rnd_config(rng, deny=False, logger="n", level=0)
